@@ -114,6 +114,23 @@ def gen_retry_enum(maxlen: int = 7, maxes: List[int] = list(range(0, 7))) -> Ite
                        "family": "retry_enum"}
 
 
+def gen_retry_percall() -> Iterator[Dict[str, Any]]:
+    """C11: the bound / flag given per call (kicker labels) differs between two sends of the same task."""
+    for a, b, flag_a, flag_b, nores in itertools.product(range(0, 6), range(0, 6), (7, 28, 0), (27, 8, 0), (True, False)):
+        if a == b and flag_a == flag_b:
+            continue
+        ops: List[Any] = [["newk", 1], ["wl", 1, "max_retries", 20 + a]]
+        if flag_a:
+            ops.append(["wl", 1, "retry_on_error", flag_a])
+        ops += [["kiq", 1, False]] + [["run_last", "fail"]] * (a + 2)
+        ops += [["newk", 2], ["wl", 2, "max_retries", 20 + b]]
+        if flag_b:
+            ops.append(["wl", 2, "retry_on_error", flag_b])
+        ops += [["kiq", 2, False]] + [["run_last", "fail"]] * (b + 2) + [["tkiq", False], ["run_last", "fail"], ["run_last", "fail"]]
+        yield {"cfg": {"decl": [["a", 9]], "retry": {"on": True, "defcount": 2, "deflabel": True, "nores": nores}, "ser": "json"},
+               "ops": ops, "family": "retry_percall"}
+
+
 def gen_send_enum() -> Iterator[Dict[str, Any]]:
     """C10 send side: 0..3 middlewares x hook subsets x sync/async x replacing x kick ok/fail."""
     specs = [{"pre": p, "post": q, "replace": r} for p in ("", "sync", "async") for q in ("", "sync", "async") for r in (False, True)
